@@ -11,7 +11,7 @@ from .base import Check, key_str
 
 CASES = ["sort_i32", "sort_u32", "sort_i64", "sort_u64", "sort_i16", "sort_u8", "sort_size_t", "sort_cmp", "sort_cmp_desc",
          "sort_double", "sort_vec_int", "for_each", "transform", "copy", "fill", "sequence", "reduce", "transform_reduce",
-         "inclusive_scan", "inclusive_scan_inplace", "exclusive_scan", "exclusive_scan_abssum", "exclusive_scan_inplace",
+         "inclusive_scan", "inclusive_scan_inplace", "exclusive_scan", "exclusive_scan_abssum", "exclusive_scan_inplace", "exclusive_scan_affine", "exclusive_scan_lastnonzero",
          "copy_if", "remove_if", "remove", "unique", "count_if", "all_of", "gather", "scatter"]
 
 
